@@ -165,6 +165,40 @@ def task_sim_enum(task):
             "parsed": str(program), "variables": sorted(str(v) for v in program.variables)}
 
 
+def task_sim_action(task):
+    """cli/actions/simulation_action.py + simulation_result.py under the scripted sources:
+    task: src, N, scripts = [script, ...] (one per sample, concatenated for the run), goals = CLI goal strings.
+    -> the lines printed after the "Simulation Result" banner, and the per-sample goal values"""
+    import argparse
+    import contextlib
+    import io
+    import os
+    import sys
+    import tempfile
+    import settings
+    from cli.actions.simulation_action import SimulationAction
+    settings.transform_categoricals = False
+    script = [i for sc in task["scripts"] for i in sc]
+    src = Scripted()
+    src.start(script)
+    fd, path = tempfile.mkstemp(suffix=".prob", dir="/var/tmp")
+    os.write(fd, task["src"].encode())
+    os.close(fd)
+    buf = io.StringIO()
+    try:
+        with Patched(src), contextlib.redirect_stdout(buf):
+            SimulationAction(argparse.Namespace(goals=task["goals"], simulation_iter=task["N"],
+                                                number_samples=len(task["scripts"])))(path)
+    finally:
+        os.unlink(path)
+    if src.pos != len(script):
+        return {"error": "exception", "etype": "ScriptLength", "msg": f"consumed {src.pos} of {len(script)} script entries"}
+    out = buf.getvalue()
+    tail = out.split("Simulation Result")[-1]
+    lines = [l.strip() for l in tail.splitlines() if " = " in l]
+    return {"lines": lines}
+
+
 # ---- programs given directly in the parsed form (Assignment objects with condition / default) ----
 def _dec(t):
     """JSON (lists, "n/d" strings tagged as ["q", "n/d"]) -> progast tuples with Fractions"""
